@@ -23,7 +23,7 @@ HERE = os.path.dirname(os.path.abspath(__file__))
 PY = '/venv/bin/python'
 ALL = ['C01', 'C02', 'C03', 'C04', 'C05', 'C06', 'C07', 'C08', 'C09', 'C10',
        'C11',
-       'C12', 'C13', 'C14', 'C15', 'C16', 'C18', 'C19', 'C20']
+       'C12', 'C13', 'C14', 'C15', 'C16', 'C17', 'C18', 'C19', 'C20']
 
 P = 'parsers/es5.py'
 L = 'lexers/es5.py'
